@@ -22,6 +22,12 @@ import re
 import sys
 import time
 import traceback
+import warnings
+
+# Programs (and their test suites) run with warnings turned into errors.  A warning attributed to the library's own
+# modules - one it issues itself, or a deprecated construct it uses - becomes an exception in every check; the
+# harness's and Hypothesis's own warnings are left alone.
+warnings.filterwarnings("error", module=r"dali(\.|$)")
 
 VERIF = os.path.dirname(os.path.dirname(os.path.abspath(__file__)))
 REPO = os.path.abspath(os.environ.get("VERIF_REPO", "/repo"))
@@ -156,6 +162,14 @@ def exc_sig(prefix, exc):
 def _shard_entry(packed):
     fn, arg = packed
     try:
+        # every shard starts with the library's logging at its most verbose level (harness/verbose.py: records are
+        # formatted and dropped): code behind isEnabledFor(DEBUG) guards runs in the checks as it does in a program that
+        # debugs.  Driver scenarios and receiver streams choose per case (and end quiet).
+        try:
+            from harness import verbose as _verbose
+            _verbose.set(True)
+        except Exception:  # noqa
+            pass
         r = fn(arg)
         if type(r).__name__ != "Result":       # (by name: in a spawned child this module is loaded twice)
             raise TypeError("shard %r returned %r" % (fn, type(r)))
